@@ -155,6 +155,9 @@ func (l *OpLib) Get(name string) *Op {
 		if c := l.txOf(name); c != nil {
 			return c
 		}
+		if c := l.rolledBackOf(name); c != nil {
+			return c
+		}
 		panic("unknown op " + name)
 	}
 	return o
@@ -164,7 +167,7 @@ func (l *OpLib) Has(name string) bool {
 	if _, ok := l.ops[name]; ok {
 		return true
 	}
-	return l.blockOf(name) != nil || l.txOf(name) != nil
+	return l.blockOf(name) != nil || l.txOf(name) != nil || l.rolledBackOf(name) != nil
 }
 
 // BlockOf names the composite op that places the transactions of several ops in ONE block, in the given
